@@ -198,7 +198,11 @@ Section Scram.
              | Some pw =>
                  let salted := pbkdf2_key pw salt it hsize hsize in
                  let wo := msg_without_proof id st combined in
-                 let am := ss_bare st ++ bs "," ++ msg ++ bs "," ++ wo in
+                 (* the server-first-message as received (T1: Gen.scram_authmsg_uses_raw_server_first); a source that
+                    re-joins the three parsed attributes instead drops optional extensions *)
+                 let sfm := if Gen.scram_authmsg_uses_raw_server_first then msg
+                            else join [44] (firstn 3 (split_on 44 msg)) in
+                 let am := ss_bare st ++ bs "," ++ sfm ++ bs "," ++ wo in
                  Some ({| ss_bare := ss_bare st; ss_nonce := combined; ss_salted := salted; ss_authmsg := am;
                           ss_iter := it; ss_bind := ss_bind st; ss_verified := false |},
                        wo ++ bs ",p=" ++ client_proof salted am)
